@@ -265,6 +265,7 @@ func runC10(w *World) *Result {
 			helperLocal = c10HelperLocals(b)
 		}
 		seen := map[string]*ownedName{}
+		caseFoldSeen := false
 		var order []string
 		for i := range names {
 			n := &names[i]
@@ -291,6 +292,12 @@ func runC10(w *World) *Result {
 			case n.user && n.pattern == "<id>":
 				// user name emitted unchanged: it is the user space itself
 				r.Triv("R-C10-names", key, n.pos, "user identifier emitted unchanged ("+n.where+")")
+				// … which must be as fine-grained as the language's: cmd.exe folds the case of variable
+				// names, the language does not
+				if role == "batch" && n.space == "var" && inU("a") && inU("A") && !caseFoldSeen {
+					caseFoldSeen = true
+					r.Bad("R-C10-names", "name:batch:var:<id>:case-fold", n.pos, "user identifiers reach the Batch script unchanged as variable names; cmd.exe treats variable names case-insensitively, the language does not: two variables that differ only in case (a, A) are one variable in the .bat and two in the .sh")
+				}
 			case !inU(n.pattern):
 				r.Ok("R-C10-names", key, n.pos, "not a word of the user identifier language")
 			case disjointScheme && !n.user:
